@@ -58,9 +58,12 @@ def run(ctx):
         dist["f:" + g] = len(fin)
         lines += ["n2srt f %08x" % b for b in fin]
     lines = N._dedupe(lines)
-    impl, faults = core.run_lines_parallel(exe, lines, jobs=14)
+    impl, faults = N.run_guarded(ctx, exe, lines, "roundtrip")
     for i, kind, err in faults:
-        ctx.fail("fault:" + kind, "sanitizer fault in the round trip on " + lines[i], {"line": lines[i], "stderr": err[-3000:]})
+        ln = lines[i] if i is not None else "(stream abandoned)"
+        ctx.fail("fault:" + kind, "sanitizer fault in the round trip on " + ln, {"line": ln, "stderr": err[-3000:]})
+    if impl is None:
+        return
     bad = []
     for l, o in zip(lines, impl):
         if o.startswith("FAULT"):
